@@ -167,11 +167,47 @@ func (vc *VC) assume(st *State, t Term) {
 	}
 }
 
+// splitAnd splits a top-level (and a b c) term into its conjuncts.
+func splitAnd(t Term) []Term {
+	if !strings.HasPrefix(t, "(and ") {
+		return []Term{t}
+	}
+	body := t[5 : len(t)-1]
+	var out []Term
+	depth := 0
+	start := 0
+	for i := 0; i < len(body); i++ {
+		switch body[i] {
+		case '(':
+			depth++
+		case ')':
+			depth--
+		case ' ':
+			if depth == 0 {
+				if i > start {
+					out = append(out, splitAnd(body[start:i])...)
+				}
+				start = i + 1
+			}
+		}
+	}
+	if start < len(body) {
+		out = append(out, splitAnd(body[start:])...)
+	}
+	return out
+}
+
 func (vc *VC) oblige(st *State, kind, label, goal, where, desc string) {
 	if st.dead {
 		return
 	}
 	if goal == "true" {
+		return
+	}
+	if parts := splitAnd(goal); len(parts) > 1 && (kind == "POST" || kind == "PRE" || kind == "INV-entry" || kind == "INV-preserve") {
+		for i, p := range parts {
+			vc.oblige(st, kind, fmt.Sprintf("%s.%d", label, i+1), p, where, desc)
+		}
 		return
 	}
 	base := fmt.Sprintf("%s/%s/%s", vc.key, kind, label)
@@ -1412,13 +1448,13 @@ func (f *frame) autoInterval(li *loopInfo, phi *ssa.Phi, entry Sym, cur *State) 
 	n := vc.scalar(f.val(cmp.Y))
 	switch {
 	case step == 1 && cmp.Op == token.LSS:
-		vc.assume(cur, fmt.Sprintf("(=> (<= %s %s) (<= %s %s))", et.t, n, it, n))
+		vc.assume(cur, fmt.Sprintf("(or (<= %s %s) (<= %s %s))", it, n, it, et.t))
 	case step == 1 && cmp.Op == token.LEQ:
-		vc.assume(cur, fmt.Sprintf("(=> (<= %s (+ %s 1)) (<= %s (+ %s 1)))", et.t, n, it, n))
+		vc.assume(cur, fmt.Sprintf("(or (<= %s (+ %s 1)) (<= %s %s))", it, n, it, et.t))
 	case step == -1 && cmp.Op == token.GEQ:
-		vc.assume(cur, fmt.Sprintf("(=> (>= %s (- %s 1)) (>= %s (- %s 1)))", et.t, n, it, n))
+		vc.assume(cur, fmt.Sprintf("(or (>= %s (- %s 1)) (>= %s %s))", it, n, it, et.t))
 	case step == -1 && cmp.Op == token.GTR:
-		vc.assume(cur, fmt.Sprintf("(=> (>= %s %s) (>= %s %s))", et.t, n, it, n))
+		vc.assume(cur, fmt.Sprintf("(or (>= %s %s) (>= %s %s))", it, n, it, et.t))
 	}
 }
 
@@ -1607,7 +1643,17 @@ func (f *frame) execBlock(b *ssa.BasicBlock, cur *State) {
 			}
 			cur = &State{dead: true}
 		default:
-			f.execInstr(in, cur)
+			func() {
+				defer func() {
+					if r := recover(); r != nil {
+						if u, ok := r.(unsupported); ok && !strings.Contains(u.msg, " @ ") {
+							panic(unsupported{fmt.Sprintf("%s [%s @ %s]", u.msg, in.String(), f.where(in.Pos()))})
+						}
+						panic(r)
+					}
+				}()
+				f.execInstr(in, cur)
+			}()
 		}
 	}
 	f.out[b] = cur
